@@ -366,6 +366,8 @@ def finalize(agg):
             out.append(f'monitor {k} never evaluated')
     if c.get('torn_files', 0) < 100:
         out.append('fewer than 100 torn files were produced')
+    if c.get('overwrite_victims', 0) == 0:
+        out.append('overwrite protection never tried on foreign files')
     return out
 
 
